@@ -280,6 +280,12 @@ def step (line : String) : String :=
     | some maxLen, some sym, some raw, some U =>
       exc ((Ingest.ingest U maxLen sym raw).map fun (r, l) => "ok " ++ hexOfBytes r ++ " " ++ hexOfBytes l)
     | _, _, _, _ => "ERR"
+  -- ingest.lossy <max_line_length> <truncation symbol> <lossy string> <tables>: `ingest_line` on invalid UTF-8
+  | "ingest.lossy" :: maxLen :: sym :: raw :: tabs =>
+    match natOfField maxLen, bytesOfField sym, bytesOfField raw, tables tabs with
+    | some maxLen, some sym, some raw, some U =>
+      exc ((Ingest.ingestInvalid U maxLen sym raw).map fun (r, l) => "ok " ++ hexOfBytes r ++ " " ++ hexOfBytes l)
+    | _, _, _, _ => "ERR"
   | ["ansi.parse_style_sections", s] =>
     match bytesOfField s with
     | some s =>
